@@ -45,7 +45,10 @@ Tick(d) ==
 
 \* the decision table: only the untouched pair of this secret, while now <= exp
 Sec == now \div 10
-Authenticates(mut) == mut = "none" /\ Sec <= cred.exp
+\* ("restFormKeyed": the name "<exp>:x" with the password the holder of the secret derives for exactly that name --
+\*  a genuine credential of the REST kind (for user x), and for the plain kind a name that is not a number)
+Genuine(mut) == mut = "none" \/ (mut = "restFormKeyed" /\ kind = "rest")
+Authenticates(mut) == Genuine(mut) /\ Sec <= cred.exp
 
 Present(mut) ==
   /\ cred.minted
@@ -60,12 +63,12 @@ View == <<kind, now, cred>>
 \* C17
 C17_Iff ==
   [][last'.a = "Present" =>
-       out' = {[k |-> "verdict", ok |-> (last'.mut = "none" /\ last'.left >= 0)]}]_vars
+       out' = {[k |-> "verdict", ok |-> (Genuine(last'.mut) /\ last'.left >= 0)]}]_vars
 
 MCDurs == {-600, 0, 10, 20, 30, -4, 8, 25}
 MCMuts == {"none", "tsPlus1", "tsMinus1", "nonNumeric", "emptyUser", "leadingPlus", "leadingSpace", "extraColon",
            "pwOtherSecret", "pwTrimmedSecret", "pwOtherName", "pwFlip", "pwEmpty", "userSwap",
-           "hexTs", "underscoreTs", "octalTs", "expTs"}
+           "hexTs", "underscoreTs", "octalTs", "expTs", "restFormKeyed"}
 ASSUME PrintT("META " \o ToJson([Sys |-> "ltcred"]))
 EmitEdge ==
   PrintT("EDGE " \o ToJson([s |-> [kind |-> kind, now |-> now, cred |-> cred], a |-> last', o |-> out',
